@@ -35,7 +35,7 @@ ASSUMPTIONS = [
     'metadata for the dataframe/export checks is non-jagged',
 ]
 ANCHORS = ['Table.sum', 'Table.min', 'Table.max', 'Table.nonzero_counts', 'Table.reduce', 'Table.get_table_density', 'compute_counts_per_sample_stats', '_summarize_table', 'Table.to_dataframe', 'Table.metadata_to_dataframe', '_export_metadata']
-REQUIRED = ['stats_with_non_finite_count', 'metadata_given_as_tuples', 'reduce_callable_kinds_checked', 'sum_checked', 'minmax_checked', 'minmax_negative_only_vectors',
+REQUIRED = ['stats_with_stored_zero', 'stats_with_non_finite_count', 'metadata_given_as_tuples', 'reduce_callable_kinds_checked', 'sum_checked', 'minmax_checked', 'minmax_negative_only_vectors',
             'nonzero_counts_checked', 'trailing_empty_vector_cases',
             'reduce_checked', 'stats_checked', 'summarize_default',
             'summarize_qualitative', 'summarize_observations',
@@ -357,6 +357,29 @@ def run_case(ctx, index):
                     fail('stats-non-finite', 'counts %r: min/max/median/mean '
                          '%r vs %r' % (per.tolist(), got, ref))
                 ctx.count('stats_with_non_finite_count')
+            if np.count_nonzero(D) >= 2 and r.random() < .3:
+                # a cell set to zero through the public matrix_data handle
+                # stays stored: a stored zero is not a non-zero count
+                t3 = biom.Table(D.copy(), list(spec.obs_ids),
+                                list(spec.samp_ids))
+                mat = t3.matrix_data
+                k = r.randrange(len(mat.data))
+                mat.data[k] = 0.0
+                D3 = np.asarray(mat.toarray(), dtype=float)
+                for binary in (False, True):
+                    per = (D3 != 0).sum(axis=0).astype(float) if binary \
+                        else D3.sum(axis=0)
+                    mn, mx, med, mean, counts = \
+                        compute_counts_per_sample_stats(
+                            t3, binary_counts=binary)
+                    if not close([mn, mx, med, mean],
+                                 [per.min(), per.max(), np.median(per),
+                                  per.mean()]) or \
+                            not close(list(counts.values()), per):
+                        fail('stats-stored-zero-%s' % binary, '%r / %r vs '
+                             'counts %r' % ([mn, mx, med, mean],
+                                            dict(counts), per.tolist()))
+                ctx.count('stats_with_stored_zero')
         elif what == 'summarize':
             from biom.cli.table_summarizer import _summarize_table
             for q, o, nm in ((False, False, 'default'),
